@@ -6,6 +6,7 @@ package bitlist
 
 import (
 	"fmt"
+	"reflect"
 	"strconv"
 	"strings"
 	"testing"
@@ -43,13 +44,20 @@ func c11Val(r *VRand, unit int, stats *VStats) uint64 {
 	}
 }
 
-func c11Dump(m *CompactBitList) string {
-	ws := m.b.Slice()
-	parts := make([]string, len(ws))
-	for i, w := range ws {
-		parts[i] = strconv.FormatUint(uint64(w), 16)
+// layout dump: DIAGNOSTIC only (the check compares the Get results, not the buffer layout)
+func c11Dump(m *CompactBitList) (out string) {
+	defer func() {
+		if recover() != nil {
+			out = "unavailable"
+		}
+	}()
+	v := reflect.ValueOf(m).Elem()
+	buf := v.FieldByName("b").Elem().FieldByName("buf")
+	parts := make([]string, buf.Len())
+	for i := 0; i < buf.Len(); i++ {
+		parts[i] = strconv.FormatUint(buf.Index(i).Uint(), 16)
 	}
-	return fmt.Sprintf("%d/%d/%s", m.unitBitSize, m.unitNum, strings.Join(parts, "."))
+	return fmt.Sprintf("%d/%d/%s", v.FieldByName("unitBitSize").Int(), v.FieldByName("unitNum").Int(), strings.Join(parts, "."))
 }
 
 func TestVerifC11BitList(t *testing.T) {
@@ -73,6 +81,7 @@ func TestVerifC11BitList(t *testing.T) {
 		}
 		stats.Inc(fmt.Sprintf("bl.unit.%02d", unit/8*8))
 		m := NewCompactBitList(unit)
+		units := 0 // highest written unit index + 1 (tracked here, not read from the struct)
 		nops := r.Range(1, 40)
 		ops := []string{}
 		outs := []string{}
@@ -88,6 +97,8 @@ func TestVerifC11BitList(t *testing.T) {
 				res := VRecover(func() string { m.Set(i, v); return "" })
 				if res != "" {
 					outs = append(outs, "panic")
+				} else if i+1 > units {
+					units = i + 1
 				}
 				stats.Inc("bl.op.set")
 			case 3, 4, 5: // append
@@ -96,6 +107,8 @@ func TestVerifC11BitList(t *testing.T) {
 				res := VRecover(func() string { m.Append(v); return "" })
 				if res != "" {
 					outs = append(outs, "panic")
+				} else {
+					units++
 				}
 				stats.Inc("bl.op.append")
 			case 9:
@@ -103,7 +116,7 @@ func TestVerifC11BitList(t *testing.T) {
 				m.Tighten()
 				stats.Inc("bl.op.tighten")
 			default: // get
-				i := r.Intn(m.unitNum + 3)
+				i := r.Intn(units + 3)
 				if r.Chance(0.1) {
 					i = r.Intn(300)
 				}
@@ -117,8 +130,17 @@ func TestVerifC11BitList(t *testing.T) {
 				stats.Inc("bl.op.get")
 			}
 		}
+		// read everything back: the behavioural equivalent of comparing the buffer
+		for i := 0; i < units+2 && i < 320; i++ {
+			ops = append(ops, fmt.Sprintf("g%d", i))
+			res := VRecover(func() string { return strconv.FormatUint(m.Get(i), 16) })
+			if strings.HasPrefix(res, "crash:") {
+				res = "panic"
+			}
+			outs = append(outs, res)
+		}
 		op := fmt.Sprintf("bl %d %s", unit, strings.Join(ops, " "))
-		st.Emit(op, fmt.Sprintf("g=%s st=%s", strings.Join(outs, ","), c11Dump(m)))
+		st.Emit(op, fmt.Sprintf("g=%s | st=%s", strings.Join(outs, ","), c11Dump(m)))
 		stats.Sample(op)
 	}
 	stats.Write("c11bl")
